@@ -71,8 +71,8 @@ def main():
         # demonstration
         run = os.path.join(src, "run.sh")
         if os.path.exists(run):
-            rc0, out0 = sh(["sh", run, clean], cwd=src, timeout=1800)
-            rc1, out1 = sh(["sh", run, scratch], cwd=src, timeout=1800)
+            rc0, out0 = sh(["bash", run, clean], cwd=src, timeout=1800)
+            rc1, out1 = sh(["bash", run, scratch], cwd=src, timeout=1800)
             result["demo_unchanged_rc"], result["demo_patched_rc"] = rc0, rc1
             print("demo: unchanged rc=%s, patched rc=%s" % (rc0, rc1))
             if rc0 != 0:
